@@ -26,13 +26,21 @@ class SimCrash(BaseException):
 
 
 class FakeResponse(object):
-    def __init__(self, net, body, reset_on_read):
+    def __init__(self, net, body, reset_on_read, incomplete_at=None):
         self.net = net
         self.body = body
         self.reset_on_read = reset_on_read
+        self.incomplete_at = incomplete_at
         self.closed = False
 
     def read(self, *args):
+        if self.incomplete_at is not None:
+            # the peer announced more bytes than it delivered before closing
+            import http.client
+
+            self.net.fired("net_incomplete_read")
+            cut = int(len(self.body) * self.incomplete_at)
+            raise http.client.IncompleteRead(self.body[:cut], len(self.body) - cut)
         if self.reset_on_read:
             self.net.fired("net_reset_on_read")
             raise ConnectionResetError(errno.ECONNRESET, "simulated: connection reset by peer")
@@ -108,7 +116,7 @@ class FakeNet(object):
     def would_serve(self, which):
         kind, body, flag = self.plan(which)
         f = self.fault
-        if f is not None and f.get("which", 0) == which and f["kind"] == "net_reset_on_read":
+        if f is not None and f.get("which", 0) == which and f["kind"] in ("net_reset_on_read", "net_incomplete_read"):
             return None
         return body
 
@@ -122,6 +130,8 @@ class FakeNet(object):
         kind, body, flag = self.plan(which)
         f = self.fault
         reset = bool(f is not None and f.get("which", 0) == which and f["kind"] == "net_reset_on_read")
+        if f is not None and f.get("which", 0) == which and f["kind"] == "net_incomplete_read":
+            return FakeResponse(self, body if body is not None else b"", False, incomplete_at=f.get("at", 0.5))
         if kind == "net_refused":
             self.fired(kind)
             raise URLError("simulated: connection refused")
